@@ -55,6 +55,7 @@ CRATES = {
 
 JOBS = [
     {"name": "e2_arith_sites_all_crates", "prop": "C05", "tier": "quick", "crates": list(CRATES)},
+    {"name": "e2_bytes_splice_functional", "prop": "C10", "tier": "quick", "crates": ["jaq-json"], "kind": "heap"},
     {"name": "e2_arith_sites_time", "prop": "C20", "tier": "quick", "crates": ["jaq-std"],
      "only_fn": r"(epoch_to_timestamp|float_to_micros|timestamp_to_epoch|array_to_datetime|datetime_to_array|to_iso8601|gmtime|mktime|strftime|strptime)"},
 ]
@@ -795,6 +796,7 @@ def site_key(crate, s):
 
 
 def dump_mir(overlay, crate, scratch):
+    os.makedirs(scratch, exist_ok=True)
     out = os.path.join(scratch, f"{crate}.mir")
     env = dict(os.environ)
     env["CARGO_NET_OFFLINE"] = "true"
@@ -862,6 +864,9 @@ def selftest(scratch, sv):
 
 
 def run_job(job, overlay, scratch):
+    if job.get("kind") == "heap":
+        import e2_heap
+        return e2_heap.run_job(job, overlay, scratch)
     t0 = time.time()
     stats = {"queries": 0, "solver_s": 0.0, "disagreements": 0, "replays": 0}
     r = {"harness": job["name"], "engine": "E2 mir->smt (z3 + cvc5)", "verdict": "inconclusive", "reason": "",
